@@ -1,6 +1,8 @@
 """C14 -- every PDU sent is well-formed; error reports echo the offending PDU exactly."""
 from engine import core
-from .common import recv_job
+from .common import recv_job, PKT_SOURCES
+from .fsm_common import fsm_job
+from .sync_common import *
 
 INFO = {"outside": "wip", "assumptions": []}
 MANIFEST = {"text": "wip", "note": "wip"}
@@ -8,4 +10,21 @@ MANIFEST = {"text": "wip", "note": "wip"}
 
 def jobs(tier):
     L = 48 if tier == "quick" else 96
-    return [recv_job(core, "recv_reports_L%d" % L, "ASSERT_C14", L, False)]
+    J = [recv_job(core, "recv_reports_L%d" % L, "ASSERT_C14", L, False)]
+    for kind, nm, text in ((4, "ipv4", 0), (6, "ipv6", 9), (9, "router_key", 1), (70, "eod_v0", 2), (71, "eod_v1", 0),
+                           (8, "header_only", 0), (8, "header_only_notext", 9), (0, "no_pdu", 0), (0, "no_pdu_notext", 3)):
+        J.append(core.Job(name="errpdu_" + nm, harness="rtr_errpdu_unit.c", entry="harness", defines=["KIND=%d" % kind, "TEXT=%d" % text],
+                          unwind=230, timeout=600, sources=PKT_SOURCES, object_bits=10,
+                          desc="real rtr_send_error_pdu_from_host/rtr_send_error_pdu/rtr_send_pdu + byte-order conversion for an "
+                               "offending %s PDU with all 8*len bits symbolic, any error code, fixed text" % nm,
+                          bounds={"offending_pdu": nm, "fields": "all bits symbolic"},
+                          stubs=["tr_send_all: wire monitor (full copy of the report)", "lrtr_dbg: empty"]))
+    J.append(core.Job(name="errpdu_refusals", harness="rtr_errpdu_unit.c", entry="harness_refusals", unwind=230, timeout=600,
+                      sources=PKT_SOURCES, object_bits=10, desc="no report about an Error Report",
+                      bounds={}, stubs=["tr_send_all: wire monitor"]))
+    fam = fam_openers() + fam_after_cr() + fam_after_cr([V4]) + [[CR, EOD], [CR, V4, EOD], [CR, V6, EOD], [CR, KEY, EOD], [CR, V4, V4, EOD]]
+    if tier == "thorough":
+        fam += fam_complete(tier)[6:]
+    for sk in fam:
+        J.append(sync_job("ASSERT_C14", sk, extra=["NO_TABLE_FAIL"] if len(sk) >= 6 else None, timeout=2400 if len(sk) >= 6 else 900))
+    return J
